@@ -748,7 +748,7 @@ void LLVMVisitor::bvisit(const Not &x)
     }
 
 SYMENGINE_RELATIONAL_FUNCTION(Equality, CreateFCmpOEQ);
-SYMENGINE_RELATIONAL_FUNCTION(Unequality, CreateFCmpONE);
+SYMENGINE_RELATIONAL_FUNCTION(Unequality, CreateFCmpUNE);
 SYMENGINE_RELATIONAL_FUNCTION(LessThan, CreateFCmpOLE);
 SYMENGINE_RELATIONAL_FUNCTION(StrictLessThan, CreateFCmpOLT);
 
